@@ -139,6 +139,10 @@ def lean_side(pid, reg, args):
     ok3, msg3, untranslatable = E.run_t3()
     res["notes"].append(msg3)
     res["t3"] = dict(ok=ok3, message=msg3, untranslatable=[f"{f}: {w}" for f, w in untranslatable])
+    if not ok3 and any(m.startswith("CircBuf.Props.Src") for m, _ in theorems):
+        # no translation of this tree exists: whatever `Generated/Core.lean` holds, the theorems about the
+        # translated source say nothing about it
+        res["broken"].append("translator:T3 could not regenerate Generated/Core.lean from this tree: " + msg3)
     mods = sorted(set(m for m, _ in theorems))
     ok, log = E.lake_build(mods + ["driver"])
     res["driver_ok"] = True
